@@ -3,7 +3,7 @@
 From Coq Require Import List Arith NArith Bool Lia Permutation.
 Import ListNotations.
 From GS Require Import Num EventLoop Heap.
-From GS.Proofs Require Import Aux EventLoopP HeapP.
+From GS.Proofs Require Import Aux EventLoopP HeapP HeapInv.
 
 Section HeapEvP.
 Context {F : Type} (A : ArithOps F) (OL : OrderLaws A) {P : Type}.
@@ -35,6 +35,15 @@ Proof.
     eapply nth_error_In; exact H0.
   - intros e' He'. apply (heap_root_is_least h m Hinv H0).
     apply Permutation_in with (l := x :: q); assumption.
+Qed.
+
+(** [heappush] of an event keeps the heap condition under [Event.__lt__]. *)
+Theorem heappush_keeps_heap (h : list event) (e : event) :
+  heap_inv (ev_lt A) h -> heap_inv (ev_lt A) (heappush (ev_lt A) h e).
+Proof.
+  apply heappush_inv.
+  - apply (ev_lt_asym A OL).
+  - intros a b c. apply (ev_nlt_trans A OL).
 Qed.
 
 End HeapEvP.
